@@ -251,7 +251,7 @@ mod verif_tree_kani {
     }
 
     //@harness props=C08,C12 kind=proof fns=Evaluator::evaluate_binary,Evaluator::evaluate_math,Evaluator::evaluate,LuaValue::number_coercion bound="the two operands are number constants over ALL pairs of doubles; operator fixed"
-    //@ desc="for ALL pairs of doubles a, b: a definite value of `a + b` is the IEEE sum (NaN allowed)" budget=300
+    //@ desc="for ALL pairs of doubles a, b: a definite value of `a + b` is the IEEE sum (NaN allowed)" budget=400
     #[kani::proof]
     #[kani::unwind(3)]
     fn vk_tree_eval_plus() {
@@ -259,7 +259,7 @@ mod verif_tree_kani {
     }
 
     //@harness props=C08,C12 kind=proof fns=Evaluator::evaluate_binary,Evaluator::evaluate_math bound="the two operands are number constants over ALL pairs of doubles; operator fixed"
-    //@ desc="for ALL pairs of doubles a, b: a definite value of `a - b` is the IEEE difference" budget=300
+    //@ desc="for ALL pairs of doubles a, b: a definite value of `a - b` is the IEEE difference" budget=400
     #[kani::proof]
     #[kani::unwind(3)]
     fn vk_tree_eval_minus() {
@@ -288,7 +288,7 @@ mod verif_tree_kani {
     }
 
     //@harness props=C08,C12 kind=proof fns=Evaluator::evaluate_binary,Evaluator::evaluate_relational bound="the two operands are number constants over ALL pairs of doubles; operator fixed"
-    //@ desc="for ALL pairs of doubles a, b: a definite answer of `a < b` is the IEEE comparison (false whenever NaN is involved)" budget=300
+    //@ desc="for ALL pairs of doubles a, b: a definite answer of `a < b` is the IEEE comparison (false whenever NaN is involved)" budget=400
     #[kani::proof]
     #[kani::unwind(3)]
     fn vk_tree_eval_lt() {
@@ -296,7 +296,7 @@ mod verif_tree_kani {
     }
 
     //@harness props=C08,C12 kind=proof fns=Evaluator::evaluate_binary,Evaluator::evaluate_relational bound="the two operands are number constants over ALL pairs of doubles; operator fixed"
-    //@ desc="for ALL pairs of doubles a, b: a definite answer of `a <= b` is the IEEE comparison (false whenever NaN is involved)" budget=300
+    //@ desc="for ALL pairs of doubles a, b: a definite answer of `a <= b` is the IEEE comparison (false whenever NaN is involved)" budget=400
     #[kani::proof]
     #[kani::unwind(3)]
     fn vk_tree_eval_le() {
@@ -304,7 +304,7 @@ mod verif_tree_kani {
     }
 
     //@harness props=C08,C12 kind=proof fns=Evaluator::evaluate_binary,Evaluator::evaluate_relational bound="the two operands are number constants over ALL pairs of doubles; operator fixed"
-    //@ desc="for ALL pairs of doubles a, b: a definite answer of `a > b` is the IEEE comparison (false whenever NaN is involved)" budget=300
+    //@ desc="for ALL pairs of doubles a, b: a definite answer of `a > b` is the IEEE comparison (false whenever NaN is involved)" budget=400
     #[kani::proof]
     #[kani::unwind(3)]
     fn vk_tree_eval_gt() {
@@ -312,7 +312,7 @@ mod verif_tree_kani {
     }
 
     //@harness props=C08,C12 kind=proof fns=Evaluator::evaluate_binary,Evaluator::evaluate_relational bound="the two operands are number constants over ALL pairs of doubles; operator fixed"
-    //@ desc="for ALL pairs of doubles a, b: a definite answer of `a >= b` is the IEEE comparison (false whenever NaN is involved)" budget=300
+    //@ desc="for ALL pairs of doubles a, b: a definite answer of `a >= b` is the IEEE comparison (false whenever NaN is involved)" budget=400
     #[kani::proof]
     #[kani::unwind(3)]
     fn vk_tree_eval_ge() {
@@ -390,7 +390,7 @@ mod verif_tree_kani {
         kani::cover!(true);
     }
 
-    //@harness props=C08,C12 kind=bounded fns=Evaluator::evaluate_unary bound="`not` over the leaves {true, false, nil, call} (enumerated); unary minus over ALL doubles" budget=300
+    //@harness props=C08,C12 kind=bounded fns=Evaluator::evaluate_unary bound="`not` over the leaves {true, false, nil, call} (enumerated); unary minus over ALL doubles" budget=400
     //@ desc="`not x` on a constant leaf is the negated truthiness (Unknown for a call); `-n` on a number constant is the IEEE negation"
     #[kani::proof]
     #[kani::unwind(6)]
